@@ -84,6 +84,21 @@ RULE = ("for each attrs class of swh.model.model, each SWHID class and Immutable
         "inspection (attrs fields, properties, zero-argument public methods: to_dict, qualifiers, hashes, unique_key, items/keys/"
         "values materialised, ...) the result is mutated deeply (pop, clear, append, nested edits), then the object, a twin and a "
         "fresh call are observed again; two successive calls (or two equal objects) must not hand out the same mutable container.  "
+        "REACH: setattr / delattr of every field, an undeclared attribute, the instance __dict__ (must not exist on the slotted "
+        "model classes), item assignment and every mutator method name of dict / list / set (update, pop, clear, append, "
+        "__ior__, ...) are attempted on the object AND on every value object, frozen mapping and tuple reached through its "
+        "containers (Person / Timestamp / TimestampWithTimezone inside Release / Revision, DirectoryEntry inside Directory.entries, "
+        "SnapshotBranch inside Snapshot.branches, SWHIDs inside RawExtrinsicMetadata / ExtID / QualifiedSWHID); EVOLVE: "
+        "attr.evolve(obj) / obj.evolve() results are equal, immutable and share nothing mutable; a dict / list given to "
+        "attr.evolve or obj.evolve for a mapping field / extra_headers is copied; value objects handed out by accessors "
+        "(swhid(), anonymize(), ...) are immutable; the object is also built from the same arguments given POSITIONALLY; "
+        "repr() is part of every observation; argument SHAPES: ImmutableDict() without argument, a one-shot generator, a zip, "
+        "a dict.items() view of a kept dict, pairs as 2-element lists, int keys; extra_headers as generator / zip; Revision "
+        "with extra_headers BOTH inside metadata and explicit, and an EMPTY legacy list; ILL-TYPED mutable containers (a list "
+        "for every tuple-typed field, a bytearray for a bytes field) which /repo refuses - if one is accepted the caller "
+        "mutates it afterwards; twins: numeric keys 1/True/1.0, SWHID argument spellings (enum member / its value, CoreSWHID "
+        "/ its string, bytes path / percent-encoded str, (a, b) / 'a-b'), the same fields in two SWHID classes (equal => "
+        "equal hash), thorough: mappings of 200-3000 keys in two orders.  "
         "non-trivial = at least one kept container argument is mutated after construction, or twins "
         "differing only in insertion order / eq=False fields, or a transport batch, or a returned-container probe; distinct = distinct case")
 TRUSTED = [
@@ -99,6 +114,14 @@ TRUSTED = [
     "by pre_checks against the real classes (identity / mutation probes) and against Generated.v by C11_arg_kinds_table",
 ]
 ASSUMPTIONS = [
+    "recorded behaviours of /repo that the probes do not count (reported to the coordinator): the SWHID classes and "
+    "ImmutableDict are not slotted, so `vars(x)[name] = v` and `idict._data = ...` / `idict.anything = ...` succeed; "
+    "re-calling `obj.__init__(...)` / `obj.__setstate__(...)` re-initialises a frozen attrs instance (attrs internals use "
+    "object.__setattr__); DirectoryEntry.DIR_ENTRY_TYPE_TO_SWHID_OBJECT_TYPE is a mutable class-level dict reachable from "
+    "every instance (mutating it changes swhid() of all entries, not their content / == / hash); QualifiedSWHID.path accepts "
+    "and copies any bytes-like; ImmutableDict == an equal plain dict (which is unhashable)",
+    "the SWHID converters' alternative spellings and pairs of different SWHID classes are checked on the implementation "
+    "only (the model has one class per twin pair and treats converters of scalar fields as the identity on canonical values)",
     "transport = pickle (protocols 0-5) and copy/deepcopy; the receiving process differs by its string-hash seed only "
     "(same interpreter, same repo); other serialisations (msgpack, to_dict/from_dict) are C12's",
     "a 'container passed to a constructor / from_dict' is the argument object itself (for from_dict also the "
@@ -121,7 +144,17 @@ FUEL = 12
 # ["t",[..]] tuple | ["l",[..]] list (kept) | ["d",[[k,v],..]] dict (kept) | ["I",[[k,v],..]] ImmutableDict
 # ["o",Class,[[field,spec],..]] frozen instance built with the constructor
 
+_CLASSES = []
+
+
 def _classes():
+    if _CLASSES:
+        return _CLASSES[0]
+    _CLASSES.append(_classes_scan())
+    return _CLASSES[0]
+
+
+def _classes_scan():
     import attr
     from swh.model import model as M
     from swh.model import swhids as S
@@ -1105,14 +1138,15 @@ def spelled_cases(rng, cname):
         items = rich_items(rng)
         a1 = [["data", [rng.choice(["d", "I"]), items]]]
         a2 = [["data", respell(rng, [rng.choice(["d", "I"]), items])]]
-        if rng.random() < 0.3:      # numeric keys: 1 / True / 1.0 and 0 / False / 0.0 / -0.0 are one key each
-            ks = rng.sample([0, 1, 2, 3, 7], min(len(items), 4))
-            it1 = [[["i", k], v] for k, (_, v) in zip(ks, items)]
-            it2 = [[respell(rng, ["i", k]), w] for k, (_, w) in zip(ks, a2[0][1][1])]
-            # the values of a2 were shuffled with their keys: take them in the order of a1 again
-            vals2 = dict((json_key(k), w) for k, w in a2[0][1][1])
-            it2 = [[respell(rng, ["i", k]), vals2[json_key(k0)]] for k, (k0, _) in zip(ks, items)]
-            a1, a2 = [["data", [a1[0][1][0], it1]]], [["data", [a2[0][1][0], it2]]]
+        if rng.random() < 0.4:      # numeric keys: 1 / True / 1.0 and 0 / False / 0.0 / -0.0 are one key each
+            ks = rng.sample([0, 1, 2, 3, 7], rng.choice([1, 2, 3, 4]))
+            hashable = rng.random() < 0.7       # hashable values: the hashes themselves are compared
+            vals = [(rng.choice([["i", 1], ["s", "x"], ["t", [["i", 0], ["B", True]]], None, ["f", "2.5"]]) if hashable
+                     else rich_value(rng)) for _ in ks]
+            it1 = [[["i", k], v] for k, v in zip(ks, vals)]
+            it2 = [[respell(rng, ["i", k]), respell(rng, v, False)] for k, v in zip(ks, vals)]
+            rng.shuffle(it2)
+            a1, a2 = [["data", [rng.choice(["d", "I"]), it1]]], [["data", [rng.choice(["d", "I"]), it2]]]
         out.append({"kind": "twins", "cls": cname, "variation": "equal-but-differently-spelled", "args1": a1, "args2": a2})
         return out
     a = gen_obj(rng, cname, hashable=True)
@@ -1147,7 +1181,8 @@ def illtyped_cases(rng, cname):
              # (urllib.parse.unquote_to_bytes): a bytearray is accepted and COPIED there
              and (cname, f) != ("QualifiedSWHID", "path")]
     rng.shuffle(cands)
-    for i, f, v in cands[:2]:
+    cands = [x for x in cands if x[2][0] == "t"] + [x for x in cands if x[2][0] == "b"][:1]     # every tuple-typed field, one bytes field
+    for i, f, v in cands:
         bad = ["l", v[1]] if v[0] == "t" else ["ba", v[1]]
         fields = [[g, (bad if j == i else x)] for j, (g, x) in enumerate(spec[2])]
         fields = [[g, (["b", "11" * 20] if g == "id" and x == ["b", ""] else x)] for g, x in fields]   # no compute_hash on it
@@ -1245,7 +1280,7 @@ def twins_cases(rng, cname):
 
 def gen(rng, tier):
     classes, _ = _classes()
-    n_obj = 20 if tier == "quick" else 350
+    n_obj = 20 if tier == "quick" else 500
     n_acc = 3 if tier == "quick" else 60
     cases = []
     names = sorted(classes)
@@ -1287,7 +1322,7 @@ def gen(rng, tier):
         cases.append({"kind": "twins", "cls": "ImmutableDict", "variation": "same",
                       "args1": [["data", ["d", items]]], "args2": [["data", ["d", items]]]})
     # transport: every class, objects full of str / bytes (salted hashes); batches = one worker round trip each
-    n_tr = 8 if tier == "quick" else 80
+    n_tr = 8 if tier == "quick" else 150
     specs = []
     for cname in names:
         if cname in GENS:
@@ -2533,8 +2568,11 @@ def shrink(c):
             w = c["args2"][i][1] if i < len(c["args2"]) else None
             if v is not None and w is not None and v[0] in ("d", "I") and w[0] in ("d", "I"):
                 for k, _ in v[1]:
-                    v2 = [v[0], [it for it in v[1] if it[0] != k]] + v[2:]
-                    w2 = [w[0], [it for it in w[1] if it[0] != k]] + w[2:]
+                    kv = build(k, [])           # keys may be spelled differently on the two sides (1 / True / 1.0)
+                    v2 = [v[0], [it for it in v[1] if build(it[0], []) != kv]] + v[2:]
+                    w2 = [w[0], [it for it in w[1] if build(it[0], []) != kv]] + w[2:]
+                    if len(v2[1]) != len(w2[1]):
+                        continue
                     yield dict(c, args1=[[g, (v2 if j == i else x)] for j, (g, x) in enumerate(c["args1"])],
                                args2=[[g, (w2 if j == i else x)] for j, (g, x) in enumerate(c["args2"])])
 
